@@ -353,6 +353,7 @@ class ILTTranslation:
         self.tr_key()
         self.tr_skeleton()
         self.tr_residues_sub()
+        self.tr_delay()
 
     # ------------------------------------------------------------------ ratfun
     def tr_ratfun(self):
@@ -672,6 +673,134 @@ class ILTTranslation:
                 self.make_reads.add(n.args[0].value)
         self.opt_reads = sorted(reads - {'pdb'})
 
+    # ------------------------------------------------------------ delay handling
+    def lin(self, node, F='lcapy/inverse_laplace.py'):
+        """polynomial in (t, s, delay) with Fraction coefficients: {(et, es, ed): Fraction}"""
+        from fractions import Fraction
+        if isinstance(node, ast.Constant) and isinstance(node.value, int):
+            return {(0, 0, 0): Fraction(node.value)}
+        if isinstance(node, ast.Name):
+            if node.id == 't':
+                return {(1, 0, 0): Fraction(1)}
+            if node.id == 's':
+                return {(0, 1, 0): Fraction(1)}
+            if node.id == 'delay':
+                return {(0, 0, 1): Fraction(1)}
+            fail(node, 'unsupported name in a delay expression', F)
+        if isinstance(node, ast.UnaryOp) and isinstance(node.op, ast.USub):
+            return {k: -v for k, v in self.lin(node.operand, F).items()}
+        if isinstance(node, ast.BinOp) and isinstance(node.op, (ast.Add, ast.Sub)):
+            a, b = self.lin(node.left, F), self.lin(node.right, F)
+            out = dict(a)
+            for k, v in b.items():
+                out[k] = out.get(k, 0) + (v if isinstance(node.op, ast.Add) else -v)
+            return {k: v for k, v in out.items() if v != 0}
+        if isinstance(node, ast.BinOp) and isinstance(node.op, ast.Mult):
+            a, b = self.lin(node.left, F), self.lin(node.right, F)
+            out = {}
+            for k1, v1 in a.items():
+                for k2, v2 in b.items():
+                    k = (k1[0] + k2[0], k1[1] + k2[1], k1[2] + k2[2])
+                    out[k] = out.get(k, 0) + v1 * v2
+            return {k: v for k, v in out.items() if v != 0}
+        fail(node, 'unsupported delay expression', F)
+
+    @staticmethod
+    def qcmul(c, var):
+        from fractions import Fraction
+        c = Fraction(c)
+        return '(qc (%d) %d * %s)%%Qc' % (c.numerator, c.denominator, var)
+
+    def shift_of(self, node):
+        """g.subs(t, <node>) / Heaviside(<node>): <node> = t - a*delay  ->  the delay a*T (Coq, over T : Qc)"""
+        P = self.lin(node)
+        if P.get((1, 0, 0)) != 1 or any(k not in ((1, 0, 0), (0, 0, 1)) for k in P):
+            fail(node, 'time argument is not t + <multiple of delay>')
+        return self.qcmul(-P.get((0, 0, 1), 0), 'T')
+
+    def exp_delay_of(self, node):
+        """delay carried by a factor product: sum over sym.exp(k*s*delay) factors of -k (Coq, over T : Qc)"""
+        from fractions import Fraction
+        facs = []
+
+        def flat(n):
+            if isinstance(n, ast.BinOp) and isinstance(n.op, ast.Mult):
+                flat(n.left)
+                flat(n.right)
+            else:
+                facs.append(n)
+        flat(node)
+        tot = Fraction(0)
+        for f in facs:
+            if isinstance(f, ast.Call) and un(f.func) == 'sym.exp' and len(f.args) == 1:
+                P = self.lin(f.args[0])
+                if any(k != (0, 1, 1) for k in P):
+                    fail(f, 'exponent is not <number> * s * delay')
+                tot -= P.get((0, 1, 1), 0)
+            elif any(isinstance(x, ast.Call) and un(x.func) == 'sym.exp' for x in ast.walk(f)):
+                fail(f, 'exp() in an unsupported position')
+        return self.qcmul(tot, 'T')
+
+    def tr_delay(self):
+        F = 'lcapy/inverse_laplace.py'
+        # delay_factor: how exp(c[0]*s + c[1]) updates the delay
+        df = find_method(self.ilt, 'delay_factor', F)
+        upd = [n for n in ast.walk(df) if (isinstance(n, ast.AugAssign) and un(n.target) == 'delay') or
+               (isinstance(n, ast.Assign) and un(n.targets[0]) == 'delay' and un(n.value) != 'Zero')]
+        if len(upd) != 1:
+            fail(df, 'exactly one update of `delay` expected in delay_factor')
+        u = upd[0]
+
+        def c0lin(node):
+            if un(node) == 'c[0]':
+                return ('c0', 1)
+            if isinstance(node, ast.UnaryOp) and isinstance(node.op, ast.USub) and un(node.operand) == 'c[0]':
+                return ('c0', -1)
+            fail(node, 'unsupported delay update')
+        if isinstance(u, ast.AugAssign) and isinstance(u.op, (ast.Sub, ast.Add)):
+            _, sg = c0lin(u.value)
+            sg = sg if isinstance(u.op, ast.Add) else -sg
+            self.delay_upd = '(d + c0)%Qc' if sg > 0 else '(d - c0)%Qc'
+        else:
+            fail(u, 'unsupported delay update')
+        self.delay_upd_src = un(u)
+        # term(): the shift of cresult / uresult, the step, the re-attached factor of the fall-back
+        tm = find_method(self.ilt, 'term', F)
+        subs = {}
+        step = None
+        fb = None
+        for n in ast.walk(tm):
+            if isinstance(n, ast.Assign) and isinstance(n.value, ast.Call) and isinstance(n.value.func, ast.Attribute) and n.value.func.attr == 'subs' \
+                    and un(n.targets[0]) in ('cresult', 'uresult') and un(n.value.func.value) == un(n.targets[0]) and len(n.value.args) == 2 and un(n.value.args[0]) == 't':
+                if un(n.targets[0]) in subs:
+                    fail(n, 'second shift of the same result')
+                subs[un(n.targets[0])] = (self.shift_of(n.value.args[1]), un(n))
+            if isinstance(n, ast.AugAssign) and un(n.target) == 'cresult' and isinstance(n.value, ast.BinOp) and isinstance(n.value.op, ast.Mult) \
+                    and un(n.value.left) == 'uresult' and isinstance(n.value.right, ast.Call) and un(n.value.right.func) == 'sym.Heaviside' \
+                    and 'delay' in un(n.value.right):
+                if step is not None:
+                    fail(n, 'second delayed step')
+                step = (self.shift_of(n.value.right.args[0]), un(n))
+            if isinstance(n, ast.For) and un(n.target) == 'term' and un(n.iter) == 'terms':
+                calls = [c for c in ast.walk(n) if isinstance(c, ast.Call) and un(c.func) == 'self.term']
+                if len(calls) != 1 or fb is not None:
+                    fail(n, 'exactly one recursive self.term(...) expected in the expansion fall-back')
+                call = calls[0]
+                if len(call.args) != 3 or un(call.args[1]) != 's' or un(call.args[2]) != 't':
+                    fail(call, 'unexpected arguments of the recursive call')
+                arg = call.args[0]
+                # `term = term * sym.exp(...)` before the call counts as well
+                d = self.exp_delay_of(arg)
+                pre = [a for a in ast.walk(n) if isinstance(a, ast.Assign) and un(a.targets[0]) == 'term' and 'sym.exp' in un(a.value)]
+                if pre:
+                    if len(pre) > 1 or 'sym.exp' in un(arg):
+                        fail(n, 'delay factor re-attached more than once')
+                    d = self.exp_delay_of(pre[0].value)
+                fb = (d, un(call))
+        if set(subs) != {'cresult', 'uresult'} or step is None or fb is None:
+            fail(tm, 'term(): shift of cresult/uresult, delayed step or expansion fall-back not found')
+        self.shift_c, self.shift_u, self.step_d, self.fallback_d = subs['cresult'], subs['uresult'], step, fb
+
     # -------------------------------------------------------------- skeletons
     def tr_skeleton(self):
         """statements of term / make / doit / delay_factor that the hand model mirrors"""
@@ -681,10 +810,7 @@ class ILTTranslation:
             "(expr, delay) = self.delay_factor(expr, s)",
             "(cresult, uresult) = self.term1(expr, s, t, **kwargs)",
             "if delay != 0:",
-            "cresult = cresult.subs(t, t - delay)",
-            "uresult = uresult.subs(t, t - delay)",
             "if not delay.is_negative:",
-            "cresult += uresult * sym.Heaviside(t - delay)",
             "self.error('Causality violated with time advance %s.' % delay)",
             "if kwargs.get('causal', False):\n    cresult += uresult * sym.Heaviside(t)\n    uresult = Zero",
             "return (cresult, uresult)",
@@ -693,7 +819,7 @@ class ILTTranslation:
             if nz(tx) not in term:
                 raise Untranslatable('%s: term(): expected statement not found: %s' % (F, tx.split('\n')[0]))
         df = all_stmts(find_method(self.ilt, 'delay_factor', F))
-        for tx in ["delay = Zero", "if b == sym.E and e.is_polynomial(var):", "delay -= c[0]", "return (rest, delay)"]:
+        for tx in ["delay = Zero", "if b == sym.E and e.is_polynomial(var):", "return (rest, delay)"]:
             if nz(tx) not in df:
                 raise Untranslatable('%s: delay_factor(): expected statement not found: %s' % (F, tx))
         t1 = all_stmts(find_method(self.ilt, 'term1', F))
@@ -752,8 +878,39 @@ class ILTTranslation:
         self.res_sel = self.sel_expr(sel.test)
         self.res_sel_src = un(sel.test)
         expect([un(s) for s in top[2:]] == ['expr = B / denom', 'r = expr.subs(var, P[i])', 'R.append(r)'], top[2], 'top-order residue', F)
-        expect([un(s) for s in nxt] == ['expr = expr.diff(var)', 'r = expr.subs(var, P[i]) / sym.factorial(M[i] - O[i])', 'R.append(r)'], nxt[0] if nxt else comp, 'lower-order residue', F)
+        expect(len(nxt) == 3 and un(nxt[0]) == 'expr = expr.diff(var)' and un(nxt[2]) == 'R.append(r)', nxt[0] if nxt else comp, 'lower-order residue', F)
+        rs = nxt[1]
+        expect(isinstance(rs, ast.Assign) and un(rs.targets[0]) == 'r', rs, 'lower-order residue assignment', F)
+        v = rs.value
+        if isinstance(v, ast.BinOp) and isinstance(v.op, ast.Div) and un(v.left) == 'expr.subs(var, P[i])':
+            self.res_div = self.div_expr(v.right)
+            self.res_div_src = un(v.right)
+        elif un(v) == 'expr.subs(var, P[i])':
+            self.res_div = '1'
+            self.res_div_src = '1'
+        else:
+            fail(rs, 'lower-order residue is not expr.subs(var, P[i]) / <divisor>', F)
         self.res_line = fn.lineno
+
+    def nat_expr(self, node):
+        F = 'lcapy/ratfun.py'
+        u = un(node)
+        if u == 'M[i]':
+            return 'M'
+        if u == 'O[i]':
+            return 'O'
+        if isinstance(node, ast.Constant) and isinstance(node.value, int) and node.value >= 0:
+            return '%d' % node.value
+        if isinstance(node, ast.BinOp) and isinstance(node.op, (ast.Add, ast.Sub, ast.Mult)):
+            op = {ast.Add: '+', ast.Sub: '-', ast.Mult: '*'}[type(node.op)]
+            return '(%s %s %s)%%nat' % (self.nat_expr(node.left), op, self.nat_expr(node.right))
+        fail(node, 'unsupported natural-number expression in the residue divisor', F)
+
+    def div_expr(self, node):
+        """divisor of the lower-order residues as a field element, over (M O : nat)"""
+        if isinstance(node, ast.Call) and un(node.func) == 'sym.factorial' and len(node.args) == 1:
+            return 'fnat (natfact %s)' % self.nat_expr(node.args[0])
+        return 'fnat %s' % self.nat_expr(node)
 
     def sel_expr(self, node):
         """boolean over (same : bool) (oi oj : nat): F[i] is F[j], O[i], O[j]"""
@@ -830,6 +987,18 @@ class ILTTranslation:
             self.ds[k]['args'] = args
         out.append('(* Ratfun._find_residues_sub (lcapy/ratfun.py line %d): factor F[j] enters the cover-up denominator iff %s *)' % (self.res_line, self.res_sel_src))
         out.append('Definition res_sel_gen (same : bool) (oi oj : nat) : bool :=\n    %s.\n' % self.res_sel)
+        out.append('(* Ratfun._find_residues_sub: divisor of the lower-order residues, source `%s` *)' % self.res_div_src)
+        out.append('Definition res_div_gen {K : fld} (M O : nat) : K :=\n    %s.\n' % self.res_div)
+        out.append('From Coq Require Import QArith Qcanon.')
+        out.append('(* delay_factor: `%s` for a factor exp(c[0]*s + c[1]) *)' % self.delay_upd_src)
+        out.append('Definition delay_upd_gen (d c0 : Qc) : Qc :=\n    %s.\n' % self.delay_upd)
+        out.append('(* term(): `%s`, `%s`: the delay by which cresult / uresult are shifted *)' % (self.shift_c[1], self.shift_u[1]))
+        out.append('Definition shift_c_gen (T : Qc) : Qc :=\n    %s.' % self.shift_c[0])
+        out.append('Definition shift_u_gen (T : Qc) : Qc :=\n    %s.' % self.shift_u[0])
+        out.append('(* term(): `%s`: position of the step *)' % self.step_d[1])
+        out.append('Definition step_gen (T : Qc) : Qc :=\n    %s.' % self.step_d[0])
+        out.append('(* term(), expansion fall-back: `%s`: delay re-attached to every expanded term *)' % self.fallback_d[1])
+        out.append('Definition fallback_gen (T : Qc) : Qc :=\n    %s.\n' % self.fallback_d[0])
         kf = '; '.join('("%s", %s)' % (n, '"%s"' % d if d is not None else '""') for n, d in self.key_fields)
         out.append('From Coq Require Import String.\nOpen Scope string_scope.')
         out.append('(* InverseLaplaceTransformer.key: fields of the cache key with their defaults *)')
